@@ -195,6 +195,8 @@ def aggregate(prop, results, extra_args=(), crash_owner_fn=None):
                       "alloc", "dealloc", "realloc", "hook_alive"):
                 stats[k] = stats.get(k, 0) + s.get(k, 0)
             stats["blk_peak"] = max(stats.get("blk_peak", 0), s.get("blk_peak", 0))
+            for k, v in s.get("counters", {}).items():
+                stats[k] = max(stats.get(k, 0), v) if k.startswith("max_") or k.startswith("states") or k in ("total_edges", "masks_total") else stats.get(k, 0) + v
             ev = s.get("ev", [0] * 7)
             for i, n in enumerate(("value_ctor", "default_ctor", "copy_ctor", "move_ctor", "copy_assign", "move_assign", "dtor")):
                 stats["ev_" + n] = stats.get("ev_" + n, 0) + ev[i]
